@@ -79,6 +79,7 @@ type vfC13World struct {
 }
 
 var vfC13Timing = os.Getenv("VERIF_C13_TIMING") != ""
+var vfC13Trace = os.Getenv("VERIF_C13_TRACE") != "" // development: print every pull's rows
 
 type vfC13Fail struct{ What string }
 
@@ -313,6 +314,9 @@ func (w *vfC13World) Pull(limits []int) (fail *vfC13Fail, err error) {
 		if w.R.Since.TriggeredBy != 0 && w.R.Since.Seq < w.R.Since.TriggeredBy {
 			st.InterruptedBackfill = true
 		}
+	}
+	if vfC13Trace {
+		fmt.Printf("SCRIPT-TRACE pull from %s: %s\nSCRIPT-TRACE   %s\n", startSince, vfJoin(trace), w.gatewayView())
 	}
 	// ---- oracle: the completed pull
 	want := w.M.VisibleSet(vfC13Client)
